@@ -28,7 +28,7 @@ def cd16 : Codec := {}                                                   -- IMA,
 def cd16p : Codec := { scale := 0x8000 }                                 -- G.72x, NMS
 def cd8 : Codec := { w := 8, fw := 8, noff := 24, scale := 0x7F }        -- DPCM_8
 def cdWide (w : Nat) : Codec := { w := w, fw := 32, noff := 0, scale := 0x7FFFFFFF }   -- DWVW
-def cdPaf24 : Codec := { w := 24, fw := 32, noff := 8, scale := 0x7FFFFFFF }
+def cdPaf24 : Codec := { w := 24, fw := 32, noff := 8, scale := 0x7FFFFFFF, woff := 8 }
 def cdG711 : Codec := { kind := .g711 }
 
 def pcm8 : PcmFmt := ⟨8, false, false⟩
@@ -385,12 +385,12 @@ theorem cross_type_write_float_g72x (cv : Conv) (x : Nat) :
     by_cases h : cv.normF = true
     · simp only [h, ↓reduceIte]
       rw [mulNf_congr f32 (pow2 15) (f32.toDy (f32.ofInt 0x8000)) (by rw [n1]; rfl) (by rw [m1]; simp [pow2, Dy.ofInt, Dy.mag] <;> norm_num)]
-    · simp only [h, Bool.false_eq_true, ↓reduceIte]
+    · simp only [h, Bool.false_eq_true, ↓reduceIte, Nat.cast_zero]
   · simp only [G72x.toCodec, floatTwin, cd16p, fmtOf, Conv.norm, G72x.s16, Bool.false_eq_true, if_false, Int.toNat_natCast, top16_of_twin, reduceCtorEq, ↓reduceIte]
     by_cases h : cv.normD = true
     · simp only [h, ↓reduceIte]
       rw [mulNf_congr f64 (pow2 15) (f64.toDy (f64.ofInt 0x8000)) (by rw [n2]; rfl) (by rw [m2]; simp [pow2, Dy.ofInt, Dy.mag] <;> norm_num)]
-    · simp only [h, Bool.false_eq_true, ↓reduceIte]
+    · simp only [h, Bool.false_eq_true, ↓reduceIte, Nat.cast_zero]
 
 /-- NMS ADPCM: the same expressions as G.72x -/
 theorem cross_type_write_float_nms (cv : Conv) (x : Nat) :
@@ -402,12 +402,12 @@ theorem cross_type_write_float_nms (cv : Conv) (x : Nat) :
     by_cases h : cv.normF = true
     · simp only [h, ↓reduceIte]
       rw [mulNf_congr f32 (pow2 15) (f32.toDy (f32.ofInt 0x8000)) (by rw [n1]; rfl) (by rw [m1]; simp [pow2, Dy.ofInt, Dy.mag] <;> norm_num)]
-    · simp only [h, Bool.false_eq_true, ↓reduceIte]
+    · simp only [h, Bool.false_eq_true, ↓reduceIte, Nat.cast_zero]
   · simp only [Nms.ofCaller, floatTwin, cd16p, fmtOf, Conv.norm, Bool.false_eq_true, if_false, Int.toNat_natCast, top16_of_twin, reduceCtorEq, ↓reduceIte]
     by_cases h : cv.normD = true
     · simp only [h, ↓reduceIte]
       rw [mulNf_congr f64 (pow2 15) (f64.toDy (f64.ofInt 0x8000)) (by rw [n2]; rfl) (by rw [m2]; simp [pow2, Dy.ofInt, Dy.mag] <;> norm_num)]
-    · simp only [h, Bool.false_eq_true, ↓reduceIte]
+    · simp only [h, Bool.false_eq_true, ↓reduceIte, Nat.cast_zero]
 
 /-- VOX (and GSM 06.10, IMA, MS ADPCM: the same expressions), factor 0x7FFF -/
 theorem cross_type_write_float_vox (cv : Conv) (x : Nat) :
@@ -419,12 +419,12 @@ theorem cross_type_write_float_vox (cv : Conv) (x : Nat) :
     by_cases h : cv.normF = true
     · simp only [h, ↓reduceIte]
       rw [mulNf_congr f32 (Dy.ofInt 0x7FFF) (f32.toDy (f32.ofInt 0x7FFF)) (by rw [n1]; rfl) (by rw [m1]; simp [pow2, Dy.ofInt, Dy.mag] <;> norm_num)]
-    · simp only [h, Bool.false_eq_true, ↓reduceIte]
+    · simp only [h, Bool.false_eq_true, ↓reduceIte, Nat.cast_zero]
   · simp only [Oki.ofCaller, floatTwin, cd16, fmtOf, Conv.norm, Bool.false_eq_true, if_false, Int.toNat_natCast, top16_of_twin, reduceCtorEq, ↓reduceIte]
     by_cases h : cv.normD = true
     · simp only [h, ↓reduceIte]
       rw [mulNf_congr f64 (Dy.ofInt 0x7FFF) (f64.toDy (f64.ofInt 0x7FFF)) (by rw [n2]; rfl) (by rw [m2]; simp [pow2, Dy.ofInt, Dy.mag] <;> norm_num)]
-    · simp only [h, Bool.false_eq_true, ↓reduceIte]
+    · simp only [h, Bool.false_eq_true, ↓reduceIte, Nat.cast_zero]
 
 theorem cross_type_write_float_gsm (cv : Conv) (x : Nat) :
     Gsm.ofCaller cv .f32 x = Gsm.ofCaller cv .s32 (floatTwin cd16 cv .f32 x) ∧
@@ -440,12 +440,12 @@ theorem cross_type_write_float_dpcm16 (cv : Conv) (x : Nat) :
     by_cases h : cv.normF = true
     · simp only [h, ↓reduceIte]
       rw [mulNf_congr f32 (Dy.ofInt 0x7FFF) (f32.toDy (f32.ofInt 0x7FFF)) (by rw [n1]; rfl) (by rw [m1]; simp [pow2, Dy.ofInt, Dy.mag] <;> norm_num)]
-    · simp only [h, Bool.false_eq_true, ↓reduceIte]
+    · simp only [h, Bool.false_eq_true, ↓reduceIte, Nat.cast_zero]
   · simp only [Dpcm.cur16, floatTwin, cd16, fmtOf, Conv.norm, Bool.false_eq_true, if_false, Int.toNat_natCast, top16_of_twin, reduceCtorEq, ↓reduceIte]
     by_cases h : cv.normD = true
     · simp only [h, ↓reduceIte]
       rw [mulNf_congr f64 (Dy.ofInt 0x7FFF) (f64.toDy (f64.ofInt 0x7FFF)) (by rw [n2]; rfl) (by rw [m2]; simp [pow2, Dy.ofInt, Dy.mag] <;> norm_num)]
-    · simp only [h, Bool.false_eq_true, ↓reduceIte]
+    · simp only [h, Bool.false_eq_true, ↓reduceIte, Nat.cast_zero]
 
 /-- XI DPCM_8, factor 0x7F -/
 theorem cross_type_write_float_dpcm8 (cv : Conv) (x : Nat) :
@@ -457,17 +457,37 @@ theorem cross_type_write_float_dpcm8 (cv : Conv) (x : Nat) :
     by_cases h : cv.normF = true
     · simp only [h, ↓reduceIte]
       rw [mulNf_congr f32 (Dy.ofInt 0x7F) (f32.toDy (f32.ofInt 0x7F)) (by rw [n1]; rfl) (by rw [m1]; simp [pow2, Dy.ofInt, Dy.mag] <;> norm_num)]
-    · simp only [h, Bool.false_eq_true, ↓reduceIte]
+    · simp only [h, Bool.false_eq_true, ↓reduceIte, Nat.cast_zero]
   · simp only [Dpcm.cur8, floatTwin, cd8, fmtOf, Conv.norm, Bool.false_eq_true, if_false, Int.toNat_natCast, top8_of_twin, reduceCtorEq, ↓reduceIte]
     by_cases h : cv.normD = true
     · simp only [h, ↓reduceIte]
       rw [mulNf_congr f64 (Dy.ofInt 0x7F) (f64.toDy (f64.ofInt 0x7F)) (by rw [n2]; rfl) (by rw [m2]; simp [pow2, Dy.ofInt, Dy.mag] <;> norm_num)]
-    · simp only [h, Bool.false_eq_true, ↓reduceIte]
+    · simp only [h, Bool.false_eq_true, ↓reduceIte, Nat.cast_zero]
 
 /-- halves go to even, 1.0 wraps (no clipping), the twin carries the low 16 bits of the rounded product -/
 example : floatTwin cd16p {} .f32 0x3F000000 = 0x40000000 ∧ floatTwin cd16p {} .f32 0x3F800000 = -2147483648 ∧
     floatTwin cd16 {} .f32 0x3F000000 = 0x40000000 ∧ floatTwin cd16 {} .f64 0x3FE0000000000000 = 0x40000000 ∧
     floatTwin cd16 {} .f32 0xBF800000 = -2147418112 ∧ G72x.toCodec {} .f32 0x3F800000 = -32768 := by decide
+
+
+/-! ### PAF 24-bit with normalisation off ("integers pass through unscaled") -/
+
+/-- the repaired writers: an unnormalised float / double and the int `floatTwin` (the value shifted into the top 24 bits) become
+    the same working sample — every bit pattern, both build variants -/
+theorem cross_type_write_float_paf24_norm_off (cv : Conv) (hF : cv.normF = false) (hD : cv.normD = false) (x : Nat) :
+    Paf24.ofCaller cv .f32 x = lrintInt cv.variant (mulNf f32 (pow2 8) x) ∧
+    floatTwin cdPaf24 cv .f32 x = wrapS 32 (Paf24.ofCaller cv .f32 x) ∧
+    floatTwin cdPaf24 cv .f64 x = wrapS 32 (Paf24.ofCaller cv .f64 x) := by
+  refine ⟨by simp [Paf24.ofCaller, hF], ?_, ?_⟩
+  · simp [Paf24.ofCaller, floatTwin, cdPaf24, fmtOf, Conv.norm, hF]
+  · simp [Paf24.ofCaller, floatTwin, cdPaf24, fmtOf, Conv.norm, hD]
+
+/-- the rule before the repair of KF-PAF24-NORMOFF-WRITE (`Paf24.ofCallerOld`, factor 1/0x100): the unnormalised 1000.0 became the
+    working sample 4, i.e. the stored code 0 — read back (norm off) as 0.0; the repaired rule stores 1000 and reads back 1000.0 -/
+theorem paf24_norm_off_write_old_rule :
+    Paf24.ofCallerOld { normF := false } .f32 0x447A0000 = 4 ∧ Paf24.toCaller { normF := false } .f32 (asr 4 8 * 256) = 0 ∧
+    Paf24.ofCaller { normF := false } .f32 0x447A0000 = 256000 ∧ Paf24.toCaller { normF := false } .f32 (asr 256000 8 * 256) = 0x447A0000 ∧
+    floatTwin cdPaf24 { normF := false } .f32 0x447A0000 = 256000 := by decide
 
 /-! ### G.711: sign and magnitude -/
 
